@@ -186,7 +186,7 @@ def add_rules(rng, cfg, profile):
                 elif k == "maxlen":
                     a.checks.append(("maxlen", rng.choice([1, 3, 6])))
                 elif k == "pattern":
-                    a.checks.append(("pattern", rng.choice(["^[a-z]+$", "^[0-9]+$", "^a.*z$"])))
+                    a.checks.append(("pattern", rng.choice(["^[a-z]+$", "^[0-9]+$", "^a.*z$", "[a-z]+", "[0-9]+", "a.*z"])))
                 else:
                     a.checks.append(("minlen", 2))
                     a.checks.append(("maxlen", 4))
@@ -304,7 +304,8 @@ def gen_valid_elem(rng, a, boundary=True):
         elif c[0] == "maxlen":
             cands += ["b" * c[1], "c"]
         elif c[0] == "pattern":
-            cands += {"^[a-z]+$": ["abc", "z"], "^[0-9]+$": ["0", "4711"], "^a.*z$": ["az", "a-z", "abcz"]}[c[1]]
+            cands += {"^[a-z]+$": ["abc", "z"], "^[0-9]+$": ["0", "4711"], "^a.*z$": ["az", "a-z", "abcz"],
+                      "[a-z]+": ["abc", "z"], "[0-9]+": ["0", "4711"], "a.*z": ["az", "a-z", "abcz"]}[c[1]]
     if cat_of(a.slot) == "level":
         cands = [x for x in cands if isinstance(x, int)]
     rng.shuffle(cands)
